@@ -140,6 +140,7 @@ class Interp:
         self.contracts = {}  # qualname -> Contract
         self.use_contracts = set()
         self.stubs = {}
+        self.global_overrides = {}
         self.spec_mode = 0
         self.loop_invariants = {}  # (qualname, ordinal) -> LoopInv
         self.fresh_counter = itertools.count()
@@ -313,6 +314,8 @@ class Interp:
 
     def resolve_global(self, mi, name, st=None):
         key = (mi.name, name)
+        if key in self.global_overrides:
+            return self.global_overrides[key]
         if key in self._globals_cache:
             return self._globals_cache[key]
         if key in self._resolving:
@@ -399,6 +402,8 @@ class Interp:
                 return frozenset(e.items)
             if e.kind == "nd":
                 return FrozenNd(e.shape, [self.freeze(x, st) for x in e.data])
+            if e.kind == "obj":
+                return FrozenObj(e.cls, {k: self.freeze(x, st) for k, x in e.attrs.items()})
             return Unknown("mutable module constant")
         if isinstance(v, tuple):
             return tuple(self.freeze(x, st) for x in v)
@@ -413,6 +418,8 @@ class Interp:
             return st.alloc(NdE(v.shape, [self.thaw(x, st) for x in v.data]))
         if isinstance(v, frozenset):
             return st.alloc(SetE(list(v)))
+        if isinstance(v, FrozenObj):
+            return st.alloc(ObjE(v.cls, {k: self.thaw(x, st) for k, x in v.attrs.items()}))
         return v
 
     def lookup(self, name, st):
@@ -1716,6 +1723,12 @@ class FrozenList:
 class FrozenDict:
     def __init__(self, items):
         self.items = items
+
+
+class FrozenObj:
+    def __init__(self, cls, attrs):
+        self.cls = cls
+        self.attrs = attrs
 
 
 class FrozenNd:
